@@ -87,6 +87,32 @@ fn exp_total_cap_anypow() {
     kani::cover!(d == Duration::MAX, "saturated delay reachable");
 }
 
+/// Overflow saturates UP, never down: once initial * multiplier^attempt is not
+/// representable (here: powi returns anything >= 1e30, initial >= 1 ms) the delay is
+/// max_interval (or Duration::MAX without a cap) - a retry loop never falls back to
+/// back-to-back retries deep into a sequence.
+#[kani::proof]
+#[kani::stub(f64::powi, fixed_any_powi)]
+fn exp_overflow_saturates_to_cap() {
+    let pw: f64 = kani::any();
+    kani::assume(pw >= 1e30); // includes +inf
+    unsafe { POW = pw };
+    let initial = any_duration(TEN_DAYS);
+    kani::assume(initial >= Duration::from_millis(1));
+    let has_max: bool = kani::any();
+    let mx = any_duration(u64::MAX);
+    let mut b = ExponentialBackoff::new(initial);
+    if has_max {
+        b = b.max_interval(mx);
+    }
+    let d = b.next_interval(kani::any());
+    if has_max {
+        assert!(d == mx, "[C14.exp_overflow_saturates] beyond the representable range the delay is max_interval");
+    } else {
+        assert!(d == Duration::MAX, "[C14.exp_overflow_saturates] beyond the representable range the delay saturates at Duration::MAX");
+    }
+}
+
 /// The exponent handed to powi is the attempt number (clamped, never wrapped
 /// to a negative value).
 static mut SEEN_EXP: i32 = -77_123_451;
